@@ -13,7 +13,15 @@ out = []
 nm = sum(1 for r in rows if r[1] == "mutant")
 ns = sum(1 for r in rows if r[1] == "seeded")
 nn = sum(1 for r in rows if r[1] == "neutral")
-nind = sum(1 for r in rows if r[1] == "neutral" and re.match(r"n(2[1-9]|[3-9]\d)$", r[0]))
+def _independent(name):
+    p = os.path.join(V, "mutants", name + ".patch")
+    try:
+        return "independent sub-agent" in open(p).readline()
+    except OSError:
+        return False
+
+
+nind = sum(1 for r in rows if r[1] == "neutral" and _independent(r[0]))
 out.append("Corpus: %d one-edit mutants and %d behaviour-preserving refactors written with the design, %d behaviour-preserving refactors written by independent" % (nm, nn - nind, nind))
 out.append("sub-agents (each with a differential demo whose checksum I re-ran before and after: `mutants/neutral-demos/`), and %d breaking changes produced by independent" % ns)
 out.append("sub-agents that were given only a property's text and a scratch worktree (`seeded/<id>/`: patch, demo that fails with / passes without the change,")
